@@ -4,7 +4,7 @@ CONSTANTS
   UnitSeq <- Units
   MaxBody = 3
   Framings = {"cl", "chunked", "close"}
-  Kinds = {"ok", "refuse", "blackhole", "noread", "garbage", "badhdr", "badcl", "badchunk"}
+  Kinds = {"ok", "refuse", "blackhole", "noread", "garbage", "badhdr", "badcl", "shortcl", "badchunk", "tecase"}
   CutCodes <- RegisteredCodes
   UpModes = {"free"}
   Requests <- Req_one
